@@ -74,7 +74,13 @@ fn judge_junk(junk: &[u8], msg: &[u8], suffix: &[u8], loc: &mut Local) {
             loc.outcome("lost behind junk");
             loc.violation("message behind junk is not recovered", format!("message {} parses alone but with junk {} in front the result is {:?}", hex_short(msg), hex_short(junk), other.map(|r| r.map(|(n, pm)| (n, format!("{:?}", pm).chars().take(120).collect::<String>())))), details());
         }
-        (other, _) => panic!("C06 harness: seed message does not parse alone: {:?}", other.map(|r| r.map(|x| x.0))),
+        // the seed messages are well-formed by construction (reference encoder): one that is not
+        // returned even without junk in front is a message the stream clause promises and the parser
+        // does not recover
+        (other, _) => {
+            loc.outcome("well-formed stored message not recovered");
+            loc.violation("well-formed stored message is not recovered", format!("stored message {} (followed by a {}-byte suffix) is not returned even without junk in front: {:?}", hex_short(msg), suffix.len(), other.map(|r| r.map(|(n, pm)| (n, format!("{:?}", pm).chars().take(120).collect::<String>())))), details());
+        }
     }
 }
 
